@@ -367,7 +367,8 @@ def run_query(pid, q, tier, keep=False, verbose=False):
             # never adapted - there a failing unwinding assertion is a result, not a tuning matter.
             explicit = set(u.split(":")[0] for u in q.unwindset)
             grow = sorted(set(re.sub(r"\.unwind\.(\d+)$", r".\1", f["name"]) for f in fails
-                              if f["kind"] == "unwind" and (f.get("file") or "").startswith(REPO + "/")))
+                              if f["kind"] == "unwind" and ((f.get("file") or "").startswith(REPO + "/") or
+                                                            (f.get("file") or "").endswith("env/libc_model.c"))))
             grow = [g for g in grow if g not in explicit]
             if not grow or q.lib_unwind_violation or attempt == 3 or \
                     any(f["kind"] not in ("unwind",) for f in fails):
